@@ -87,8 +87,8 @@ FEATS_TONNX_T = FEATS_TONNX_Q + [['bn', 'rng'], ['rng', 'part'], ['bn', 'rng', '
 FEATS_TOLINEN_Q = [[], ['bn'], ['rng'], ['part'], ['lpart'], ['bn', 'part'], ['dyn']]
 FEATS_TOLINEN_T = FEATS_TOLINEN_Q + [['bn', 'rng'], ['bn', 'lpart'], ['bn', 'rng', 'part'],
                                       ['rng', 'lpart'], ['bn', 'dyn']]
-RNGCFG_Q = ['default', 'named']
-RNGCFG_T = ['default', 'named', 'mixed']
+RNGCFG_Q = ['default', 'named', 'both']
+RNGCFG_T = ['default', 'named', 'mixed', 'both']
 
 
 def bounds(tier):
@@ -331,6 +331,8 @@ def _make_rngs(cfg):
     return nnx.Rngs(3)
   if cfg == 'named':
     return nnx.Rngs(params=1, dropout=2)
+  if cfg == 'both':       # a default stream AND a params stream: params must come from params
+    return nnx.Rngs(5, params=1, dropout=2)
   return nnx.Rngs(0, dropout=2)
 
 
